@@ -308,10 +308,10 @@ theorem K_eq : K = prefixOps.length + infixOps.length + 8 := rfl
 /-! #### the expressions the parser produces, and their texts -/
 
 /-- expressions as the parser builds them: names are identifiers, constants are not negative and
-    are printed as a number `e_const` reads back, functions are called by name -/
+    below 2^63 (what `e_const` accepts), functions are called by name -/
 inductive Wf : Expr → Prop
   | ident (s : Str) : isName s → Wf (.ident s)
-  | const (v : Int) (n : Nat) : v = (n : Int) → NumText (intToDec v) n → Wf (.const v)
+  | const (v : Int) (n : Nat) : v = (n : Int) → n < 2 ^ 63 → Wf (.const v)
   | func (name : Str) (a : Expr) : isName name → Wf a → Wf (.func (.ident name) a)
   | bin (op : BinOp) (l r : Expr) : Wf l → Wf r → Wf (.bin op l r)
   | un (u : UnOp) (e : Expr) : Wf e → Wf (.un u e)
@@ -331,7 +331,8 @@ theorem exprText_head (e : Expr) (h : Wf e) : ∃ y ys, exprText e = y :: ys ∧
   | ident s hs =>
     obtain ⟨x, xs, rfl, hx, _⟩ := hs
     exact ⟨x, xs, rfl, Or.inl hx⟩
-  | const v n hv hn =>
+  | const v n hv hfit =>
+    have hn : NumText (intToDec v) n := by rw [hv]; exact numText_intToDec n hfit
     obtain ⟨⟨y, ys, hy, hd⟩, _⟩ := hn
     refine ⟨y, ys, by simp [exprText, hy], ?_⟩
     rcases hd with hd | hd
@@ -416,7 +417,8 @@ theorem reads_ident (s : Str) (hs : isName s) : Reads (.ident s) := by
       · simp at heq
     · rfl
 
-theorem reads_const (v : Int) (n : Nat) (hv : v = (n : Int)) (hn : NumText (intToDec v) n) : Reads (.const v) := by
+theorem reads_const (v : Int) (n : Nat) (hv : v = (n : Int)) (hfit : n < 2 ^ 63) : Reads (.const v) := by
+  have hn : NumText (intToDec v) n := by rw [hv]; exact numText_intToDec n hfit
   intro rest hr f hf
   simp only [exprText] at hf ⊢
   have hK := K_eq
@@ -678,10 +680,207 @@ theorem expr_reads_back (e : Expr) (h : Wf e) (rest : Str) (hr : AtomEnd rest) (
 
 /-! non-vacuity: `(1<<(k+3))`, the text pasted for the argument `1 << (k + 3)` -/
 example : Wf (.bin .shl (.const 1) (.bin .add (.ident ['k']) (.const 3))) :=
-  .bin _ _ _ (.const 1 1 rfl (numText_dec [(false, 1)] (by decide) (by decide) (Or.inr ⟨_, _, rfl, by decide⟩)))
-    (.bin _ _ _ (.ident _ ⟨'k', [], rfl, by decide, by decide⟩)
-      (.const 3 3 rfl (numText_dec [(false, 3)] (by decide) (by decide) (Or.inr ⟨_, _, rfl, by decide⟩))))
+  .bin _ _ _ (.const 1 1 rfl (by decide))
+    (.bin _ _ _ (.ident _ ⟨'k', [], rfl, by decide, by decide⟩) (.const 3 3 rfl (by decide)))
 example : exprText (.bin .shl (.const 1) (.bin .add (.ident ['k']) (.const 3))) = "(1<<(k+3))".toList := by decide
+
+set_option linter.unusedSimpArgs false in
+section
+/-! ### every expression the parser returns is well-formed -/
+
+theorem takeWhileP_all (p : Char → Bool) : ∀ s : Str, ∀ c ∈ (takeWhileP p s).1, p c = true
+  | [] => by simp [takeWhileP]
+  | x :: xs => by
+    intro c hc
+    unfold takeWhileP at hc
+    split at hc
+    · rename_i hx
+      simp only [List.mem_cons] at hc
+      rcases hc with rfl | hc
+      · exact hx
+      · exact takeWhileP_all p xs c hc
+    · simp at hc
+
+theorem identText_isName (s n r : Str) (h : identText s = some (n, r)) : isName n := by
+  unfold identText at h
+  split at h
+  · rename_i c cs
+    split at h
+    · rename_i hc
+      simp only [Option.some.injEq, Prod.mk.injEq] at h
+      obtain ⟨rfl, _⟩ := h
+      exact ⟨c, _, rfl, hc, takeWhileP_all isIdentChar cs⟩
+    · simp at h
+  · simp at h
+
+theorem constAlt_range (pre : Str) (cls : Char → Bool) (radix : Nat) (s : Str) (v : Int) (r : Str)
+    (h : constAlt pre cls radix s = some (v, r)) : ∃ n : Nat, v = (n : Int) ∧ n < 2 ^ 63 := by
+  unfold constAlt at h
+  split at h
+  · simp at h
+  · dsimp only at h
+    split at h
+    · simp at h
+    · split at h
+      · rename_i hlt
+        simp only [Option.some.injEq, Prod.mk.injEq] at h
+        exact ⟨_, h.1.symm, hlt⟩
+      · simp at h
+
+theorem eConst_range (s : Str) (v : Int) (r : Str) (h : eConst s = some (v, r)) : ∃ n : Nat, v = (n : Int) ∧ n < 2 ^ 63 := by
+  unfold eConst at h
+  cases h1 : constAlt ['$'] isHexDigit 16 s with
+  | some x => rw [h1] at h; simp only [Option.orElse] at h; cases h; exact constAlt_range _ _ _ _ _ _ h1
+  | none =>
+    rw [h1] at h; simp only [Option.orElse] at h
+    cases h2 : constAlt ['0', 'x'] isHexDigit 16 s with
+    | some x => rw [h2] at h; simp only [Option.orElse] at h; cases h; exact constAlt_range _ _ _ _ _ _ h2
+    | none =>
+      rw [h2] at h; simp only [Option.orElse] at h
+      cases h3 : constAlt ['0', 'b'] isBinDigit 2 s with
+      | some x => rw [h3] at h; simp only [Option.orElse] at h; cases h; exact constAlt_range _ _ _ _ _ _ h3
+      | none =>
+        rw [h3] at h; simp only [Option.orElse] at h
+        cases h4 : constAlt ['0'] isOctDigit 8 s with
+        | some x => rw [h4] at h; simp only [Option.orElse] at h; cases h; exact constAlt_range _ _ _ _ _ _ h4
+        | none =>
+          rw [h4] at h; simp only [Option.orElse] at h
+          exact constAlt_range _ _ _ _ _ _ h
+
+theorem char_range (c : Char) : c.toNat < 2 ^ 63 := by
+  have := c.valid
+  have h : c.toNat < 0x110000 := by
+    rcases this with h | ⟨_, h⟩
+    · have : c.toNat < 0xd800 := h
+      omega
+    · exact h
+  omega
+
+def WfOut (f : Nat) : Prop :=
+  (∀ m s e r, parseInfix f m s = .ok e r → Wf e) ∧
+  (∀ s e r, parsePrefixAtom f s = .ok e r → Wf e) ∧
+  (∀ l s e r, tryPrefix f l s = .ok e r → Wf e) ∧
+  (∀ s e r, parseAtom f s = .ok e r → Wf e) ∧
+  (∀ m e0 s e r, Wf e0 → parseLoop f m e0 s = .ok e r → Wf e) ∧
+  (∀ m l e0 s0 s e r, Wf e0 → tryInfix f m l e0 s0 s = .ok e r → Wf e)
+
+theorem wfOut : ∀ f, WfOut f := by
+  intro f
+  induction f with
+  | zero =>
+    refine ⟨?_, ?_, ?_, ?_, ?_, ?_⟩
+    · intro m s e r h; simp [parseInfix] at h
+    · intro s e r h; simp [parsePrefixAtom] at h
+    · intro l s e r h; simp [tryPrefix] at h
+    · intro s e r h; simp [parseAtom] at h
+    · intro m e0 s e r _ h; simp [parseLoop] at h
+    · intro m l e0 s0 s e r _ h; simp [tryInfix] at h
+  | succ f ih =>
+    obtain ⟨hI, hPA, hTP, hA, hL, hTI⟩ := ih
+    refine ⟨?_, ?_, ?_, ?_, ?_, ?_⟩
+    · intro m s e r h
+      simp only [parseInfix] at h
+      split at h
+      · rename_i e1 rest hp
+        exact hL _ _ _ _ _ (hPA _ _ _ hp) h
+      · simp at h
+      · simp at h
+    · intro s e r h
+      simp only [parsePrefixAtom] at h
+      exact hTP _ _ _ _ h
+    · intro l s e r h
+      cases l with
+      | nil => simp only [tryPrefix] at h; exact hA _ _ _ h
+      | cons x more =>
+        obtain ⟨t, u, lv⟩ := x
+        simp only [tryPrefix] at h
+        split at h
+        · split at h
+          · rename_i e1 rest hp
+            simp only [PR.ok.injEq] at h
+            obtain ⟨rfl, _⟩ := h
+            exact .un u e1 (hI _ _ _ _ hp)
+          · exact hTP _ _ _ _ h
+          · simp at h
+        · exact hTP _ _ _ _ h
+    · intro s e r h
+      simp only [parseAtom] at h
+      split at h
+      · rename_i pa e1 r1 heq
+        simp only [PR.ok.injEq] at h; obtain ⟨rfl, _⟩ := h
+        split at heq
+        · rename_i n ra hid
+          split at heq
+          · split at heq
+            · rename_i a r3 hp
+              split at heq
+              · simp only [PR.ok.injEq] at heq; obtain ⟨rfl, _⟩ := heq
+                exact .func n a (identText_isName _ _ _ hid) (hI _ _ _ _ hp)
+              · simp at heq
+            · simp at heq
+            · simp at heq
+          · simp at heq
+        · simp at heq
+      · simp at h
+      · split at h
+        · rename_i e1 r1 heq
+          simp only [PR.ok.injEq] at h; obtain ⟨rfl, _⟩ := h
+          split at heq
+          · split at heq
+            · rename_i a r2 hp
+              split at heq
+              · simp only [PR.ok.injEq] at heq; obtain ⟨rfl, _⟩ := heq
+                exact hI _ _ _ _ hp
+              · simp at heq
+            · simp at heq
+            · simp at heq
+          · simp at heq
+        · simp at h
+        · split at h
+          · rename_i v r1 hc
+            simp only [PR.ok.injEq] at h; obtain ⟨rfl, _⟩ := h
+            obtain ⟨n, hv, hn⟩ := eConst_range _ _ _ hc
+            exact .const v n hv hn
+          · split at h
+            · rename_i c r1 hc
+              simp only [PR.ok.injEq] at h; obtain ⟨rfl, _⟩ := h
+              exact .const _ c.toNat rfl (char_range c)
+            · split at h
+              · rename_i n r1 hid
+                simp only [PR.ok.injEq] at h; obtain ⟨rfl, _⟩ := h
+                exact .ident n (identText_isName _ _ _ hid)
+              · simp at h
+    · intro m e0 s e r he0 h
+      simp only [parseLoop] at h
+      exact hTI _ _ _ _ _ _ _ he0 h
+    · intro m l e0 s0 s e r he0 h
+      cases l with
+      | nil => simp only [tryInfix] at h; simp only [PR.ok.injEq] at h; obtain ⟨rfl, _⟩ := h; exact he0
+      | cons x more =>
+        obtain ⟨t, b, lv, rlv⟩ := x
+        simp only [tryInfix] at h
+        split at h
+        · exact hTI _ _ _ _ _ _ _ he0 h
+        · split at h
+          · split at h
+            · rename_i e1 rest hp
+              exact hL _ _ _ _ _ (.bin b e0 e1 he0 (hI _ _ _ _ hp)) h
+            · exact hTI _ _ _ _ _ _ _ he0 h
+            · simp at h
+          · exact hTI _ _ _ _ _ _ _ he0 h
+
+/-- **whatever expression `expr()` returns is well-formed** — so the read-back theorem applies to
+    every argument a caller can write -/
+theorem expr_wf (s : Str) (e : Expr) (r : Str) (h : expr s = .ok e r) : Wf e :=
+  (wfOut _).1 _ _ _ _ h
+
+/-- **the round trip**: any text `expr()` accepts yields an expression whose pasted text `expr()`
+    reads back as the same expression -/
+theorem paste_round_trip (s : Str) (e : Expr) (r : Str) (h : expr s = .ok e r)
+    (rest : Str) (hr : AtomEnd rest) (ho : OpEnd rest) : expr (exprText e ++ rest) = .ok e rest :=
+  expr_reads_back e (expr_wf s e r h) rest hr ho
+
+end
 
 end ReadBack
 
